@@ -22,6 +22,7 @@ type jTV struct{ S string } // TextMarshaler, value receiver
 type jTP struct{ S string } // TextMarshaler, pointer receiver
 type jTKey string           // string kind + TextMarshaler (map keys)
 type jIKey int              // int kind + TextMarshaler (map keys)
+type jRawM []byte           // MarshalJSON returns the bytes as they are
 type jWKey struct{ P *jTP } // pointer-shaped struct + TextMarshaler (map keys)
 type jAKey [1]*jTP          // pointer-shaped array + TextMarshaler (map keys)
 type JE1 struct {
@@ -47,6 +48,7 @@ func (m jTV) MarshalText() ([]byte, error)   { return []byte("tv:" + m.S), nil }
 func (m *jTP) MarshalText() ([]byte, error)  { return []byte("tp:" + m.S), nil }
 func (k jTKey) MarshalText() ([]byte, error) { return []byte("tk:" + string(k)), nil }
 func (k jIKey) MarshalText() ([]byte, error) { return []byte("ik:" + strconv.Itoa(int(k))), nil }
+func (m jRawM) MarshalJSON() ([]byte, error) { return []byte(m), nil }
 func (k jWKey) MarshalText() ([]byte, error) {
 	if k.P == nil {
 		return []byte("w:nil"), nil
@@ -263,6 +265,10 @@ func (g *jgen) val(t reflect.Type, depth int) reflect.Value {
 		v.SetString(h.Pick([]string{"", "0", "12", "-3.5e10", "1e400", "007", "1x", "--1", "0x10", " 1", "1 "}))
 		return v
 	case reflect.TypeOf(json.RawMessage(nil)):
+		if h.Intn(3) == 0 {
+			v.SetBytes(g.rawDoc(0))
+			return v
+		}
 		if h.Intn(4) != 0 {
 			v.SetBytes([]byte(h.Pick([]string{`1`, `"x"`, `{ "a" : [1, 2] }`, ` null `, `{"<":"&"}`, "[\n1\t]", `{`, `1 2`, ``, `tru`, "\"\u2028\""})))
 			if !stdjson.Valid(v.Bytes()) {
@@ -493,6 +499,27 @@ func init() {
 		}
 		return i, o, strings.Join(ks, ",")
 	}
+	// json.rawmsg <subseed> <setting>: a generated raw JSON text as a RawMessage field and as a MarshalJSON result
+	ops["json.rawmsg"] = func(a []string) (string, string, string) {
+		sub, _ := strconv.ParseUint(a[0], 10, 64)
+		g := &jgen{h: &H{rng: sub, Stats: map[string]int64{}}, feats: map[string]bool{}}
+		doc := g.rawDoc(0)
+		x := struct {
+			A int
+			R json.RawMessage
+			M jRawM
+			Z string
+		}{1, json.RawMessage(doc), jRawM(doc), "<z>"}
+		ga, e1, gb, e2 := marshalWith(a[1], x)
+		i, o := "err", "err"
+		if e1 == nil {
+			i = "ok:" + hx(ga)
+		}
+		if e2 == nil {
+			o = "ok:" + hx(gb)
+		}
+		return i, o, ""
+	}
 	ops["json.collide"] = func(a []string) (string, string, string) {
 		t := reflect.StructOf([]reflect.StructField{
 			{Name: "A", Type: reflect.TypeOf(0), Tag: `json:"dup"`},
@@ -578,6 +605,9 @@ func runC01(h *H) {
 	if h.Thorough() {
 		M = 40000
 	}
+	for i := 0; i < M/3; i++ {
+		h.Do("json.rawmsg", strconv.FormatUint(h.U64(), 10), jsonSettings[h.Intn(len(jsonSettings))])
+	}
 	for i := 0; i < M; i++ {
 		n := h.Intn(30)
 		s := make([]byte, n)
@@ -614,6 +644,9 @@ func runC01(h *H) {
 		h.Do("json.encint", strconv.FormatUint(h.U64()>>uint(h.Intn(64)), 10))
 		h.Do("json.duration", strconv.FormatInt(int64(h.U64()>>uint(h.Intn(64))), 10))
 	}
+	// struct-field resolution against the Lean model / specification (c01fields.go)
+	genFields(h)
+	genFieldsDec(h)
 	// type-directed differential against encoding/json (supervised: a crash is an observable)
 	N := 2500
 	if h.Thorough() {
@@ -628,4 +661,55 @@ func runC01(h *H) {
 		}
 		h.DoRisky("json.marshal", strconv.FormatUint(sub, 10), setting, by)
 	}
+}
+
+// rawDoc: a VALID JSON text with insignificant white space, strings that end in escaped backslashes or quotes, HTML
+// characters and U+2028 inside and outside strings-with-escapes: what the compaction / HTML escaping of RawMessage values
+// and MarshalJSON results must get through with its in-string state intact.
+func (g *jgen) rawDoc(depth int) []byte {
+	h := g.h
+	ws := func() string { return h.Pick([]string{"", "", " ", "\n", "\t ", "  "}) }
+	str := func() string {
+		return h.Pick([]string{`""`, `"a b"`, `"\\"`, `"x\\"`, `"C:\\tmp\\"`, `"\\\""`, `"q\"\\"`, `"<a&b>"`, `"a b <c>"`, `"\u2028 \\"`, "\"\u2028\"", `"\\\\"`,
+			`"é \\"`, `"\\ \\"`, `"{ [ , : "`, `"\\u005c"`, `"end\\\\"`})
+	}
+	var b strings.Builder
+	var val func(d int)
+	val = func(d int) {
+		switch r := h.Intn(10); {
+		case r < 4 || d > 2:
+			b.WriteString(str())
+		case r < 5:
+			b.WriteString(h.Pick([]string{"1", "-0.5e+3", "true", "null", "false"}))
+		case r < 8:
+			b.WriteString("{" + ws())
+			n := h.Intn(4)
+			for i := 0; i < n; i++ {
+				if i > 0 {
+					b.WriteString(ws() + "," + ws())
+				}
+				b.WriteString(str() + ws() + ":" + ws())
+				val(d + 1)
+			}
+			b.WriteString(ws() + "}")
+		default:
+			b.WriteString("[" + ws())
+			n := h.Intn(4)
+			for i := 0; i < n; i++ {
+				if i > 0 {
+					b.WriteString(ws() + "," + ws())
+				}
+				val(d + 1)
+			}
+			b.WriteString(ws() + "]")
+		}
+	}
+	b.WriteString(ws())
+	val(depth)
+	b.WriteString(ws())
+	out := []byte(b.String())
+	if !stdjson.Valid(out) {
+		g.feat("badraw")
+	}
+	return out
 }
